@@ -49,5 +49,9 @@ def run(ctx):
     engine_corr.run_stream(ctx, PROPERTY, ctx.n(120, 3000), focus=focus)
 
 
+def replay(ctx, data):
+    return engine_corr.replay_spec(ctx, PROPERTY, data)
+
+
 if __name__ == "__main__":
     core.main(sys.modules[__name__])
